@@ -18,7 +18,10 @@ TStep ==
           \/ e.cmd = "readref" /\ ReadRef
           \/ e.cmd = "mutenv" /\ MutateThroughEnv
           \/ e.cmd = "mutheld" /\ MutateHeld
+          \/ e.cmd = "togglerule" /\ ToggleRule
           \/ e.cmd = "launch" /\ Launch(e.k, e.v) /\ res'.child = e.obs.child /\ res'.back = e.obs.back
+               \* the mirrored (deprecated) name of R always carries the same value
+               /\ e.obs.mirror = res'.child["R"]
        /\ used' = IF res'.dev = "" THEN used ELSE used \cup {res'.dev}
   /\ l' = l + 1 /\ tid' = tid
 
